@@ -261,6 +261,11 @@ def make_check(n, variants):
             if escaped is None:
                 got = summary(w, brokers)
                 compare(en, "schedule-independent", case, ref, got, variant)
+                if variant in ("incremental", "run_all", "pool") and not given:
+                    # documented for run_incremental: without a seed broker every sub-graph gets a broker of its own, holding only
+                    # what that sub-graph produced (with one shared broker the caller sees every result once per sub-graph)
+                    shared = len(brokers) != len(set(id(b) for b in brokers))
+                    en.must_hold(not shared, "schedule-independent", case, detail="%s: %d sub-graphs were reported through %d broker objects" % (variant, len(brokers), len(set(id(b) for b in brokers))))
                 over = [i for i, c in w.invocations.items() if c > 1]
                 en.must_hold(not over, "schedule-independent", case, detail="%s: components %s invoked more than once" % (variant, over))
     return fn
@@ -388,6 +393,8 @@ def _native(case, hashes=None):
     except Exception as ex:  # noqa
         return ["driver raised %r%s" % (ex, tag)]
     got = summary(w, brokers)
+    if v in ("incremental", "run_all") and not given and len(brokers) != len(set(id(b) for b in brokers)):
+        bad.append("%s%s: %d sub-graphs were reported through %d broker objects" % (v, tag, len(brokers), len(set(id(b) for b in brokers))))
     if got[:3] != ref[:3]:
         bad.append("%s%s: %r vs single pass %r" % (v, tag, got, ref))
     if got[3]:
